@@ -20,6 +20,8 @@ package main
 import (
 	"context"
 	"fmt"
+	"os"
+	"runtime"
 	"strings"
 	"time"
 
@@ -36,6 +38,39 @@ func run(c *Ctx) {
 		CaseType: "unreach_case", CheckFn: "unreach_check", PerShard: 200}
 	t0 := time.Now()
 	nw := 0
+	// Watchdog: every operation of a world is bounded (notices are awaited for a few seconds, dials
+	// for the handshake timeout), so a run in which NO operation completes for three minutes is a
+	// mesh that has stopped answering - a sender that never learns anything.  Reported as such (with
+	// where the nodes' goroutines are blocked) instead of leaving the verdict to the time limit of
+	// the whole check.
+	go func() {
+		last, since := -1, time.Now()
+		for {
+			time.Sleep(5 * time.Second)
+			if n := im.Evaluations; n != last {
+				last, since = n, time.Now()
+				continue
+			}
+			if time.Since(since) < 180*time.Second {
+				continue
+			}
+			buf := make([]byte, 1<<22)
+			buf = buf[:runtime.Stack(buf, true)]
+			blocked := map[string]int{}
+			for _, g := range strings.Split(string(buf), "\n\n") {
+				for _, fn := range []string{"(*Broker).Subscribe", "(*Broker).Unsubscribe", "(*Broker).Publish", "(*Broker).start", "handleUnreachable", "StartUnreachable", "SubscribeUnreachable", "ListenPacket", "DialContext", "sendUnreachable"} {
+					if strings.Contains(g, fn) {
+						blocked[fn]++
+					}
+				}
+			}
+			im.Violate(fmt.Sprintf("no datagram, ping or dial of the run completed for %v (after %d operations): the mesh has stopped answering, senders are told nothing any more; goroutines by function: %v", time.Since(since).Round(time.Second), last, blocked),
+				"mesh-stopped-answering", map[string]interface{}{"operations_completed": last, "goroutines": blocked})
+			_ = cf.Write()
+			_ = im.Write(c.Out)
+			os.Exit(0)
+		}
+	}()
 	for _, spec := range worldSpecs(c) {
 		w := buildWorld(c, im, spec)
 		if w == nil {
